@@ -1589,6 +1589,19 @@ class Collection(object):
     def create_index(self, key_or_list, cache_for=300, session=None, **kwargs):
         if session:
             raise_not_implemented('session', 'Mongomock does not handle sessions yet')
+        if kwargs.pop('collation', None):
+            raise_not_implemented(
+                'collation',
+                'The collation argument of create_index is valid but has not been implemented in '
+                'mongomock yet')
+        if kwargs.pop('array_filters', None):
+            raise_not_implemented(
+                'array_filters', 'Array filters are not implemented in mongomock yet.')
+        if kwargs.pop('let', None):
+            raise_not_implemented(
+                'let',
+                'The let argument of create_index is valid but has not been implemented in '
+                'mongomock yet')
         index_list = helpers.create_index_list(key_or_list)
         is_unique = kwargs.pop('unique', False)
         is_sparse = kwargs.pop('sparse', False)
